@@ -172,14 +172,18 @@ class GenSource(object):
                 script.append(['tick', 2.5 * eps])
         return script
 
-    def _mutate_result(self, sim, task, op_id):
-        """A documented mutator applied by the caller to an object it received from op_id."""
+    def _mutate_result(self, sim, task, op_id, hids=None):
+        """A documented mutator applied by the caller to an object it received from op_id (or, with
+        hids, to one of the objects it passed to op_id as arguments)."""
         HSTRIDE = self.cfg['hstride']
         pool, rng = sim.pool, self.rng
         c = []
         for kind in ('Angle', 'Epoch'):
             for h, o in pool.mutable(kind, task):
-                if op_id * HSTRIDE <= h < op_id * HSTRIDE + self.cfg['rslots']:
+                if hids is not None:
+                    if any(pool.handles.get(x) is o for x in hids):
+                        c.append((h, kind))
+                elif op_id * HSTRIDE <= h < op_id * HSTRIDE + self.cfg['rslots']:
                     c.append((h, kind))
         if not c:
             return None
@@ -195,6 +199,39 @@ class GenSource(object):
                 return {'name': 'Angle.set_tolerance', 'recv': {'h': h}, 'args': [g.fv(10 ** rng.uniform(-6, -1))], 'kwargs': {}}
             return {'name': 'Angle.set_radians', 'recv': {'h': h}, 'args': [g.num(-6, 6)], 'kwargs': {}}
         return {'name': 'Epoch.set', 'recv': {'h': h}, 'args': [g.f(2.0e6, 2.9e6)], 'kwargs': {}}
+
+    def _perturb(self, core):
+        """Neighbouring arguments: one numeric literal (or the value of one inline Angle/Epoch) moved a little.
+        A cache keyed on too little answers the neighbour with the first call's value."""
+        rng = self.rng
+        leaves = []
+
+        def walk(e):
+            if isinstance(e, dict):
+                if 'i' in e and not isinstance(e['i'], bool):
+                    leaves.append(('i', e))
+                elif 'f' in e:
+                    leaves.append(('f', e))
+                elif 'new' in e:
+                    leaves.append(('v', e))
+                elif 'mk' in e:
+                    for x in e['items']:
+                        walk(x)
+        for x in [core.get('recv')] + list(core['args']) + list(core['kwargs'].values()):
+            if x:
+                walk(x)
+        if leaves:
+            k, e = leaves[rng.randrange(len(leaves))]
+            if k == 'i':
+                e['i'] = e['i'] + rng.choice([-1, 1])
+            elif k == 'f':
+                x = float.fromhex(e['f'])
+                e['f'] = float(x + rng.choice([-1, 1]) * rng.choice([1e-3, 0.3, 1.0]) * max(1e-3, min(abs(x), 1.0))).hex()
+            else:
+                x = float.fromhex(e['v'])
+                d = rng.choice([1e-4, 0.01, 0.4]) if e['new'] == 'Angle' else rng.choice([1e-3, 0.3, 20.0])
+                e['v'] = float(x + rng.choice([-1, 1]) * d).hex()
+        return core
 
     def _edit_list(self, sim, task, op_id):
         """The caller edits one numeric leaf of a list it built for op_id."""
@@ -272,6 +309,14 @@ class GenSource(object):
                 if op is not None:
                     sim.count('probe.mutator_on_fresh_result_then_repeat')
                     return self._finish(op, task, depth)
+            elif what == 'mutate_arg':
+                op = self._mutate_result(sim, task, None, val)
+                if op is not None:
+                    sim.count('probe.mutator_on_argument_then_repeat')
+                    return self._finish(op, task, depth)
+            elif what == 'near':
+                sim.count('probe.call_repeated_with_neighbouring_arguments')
+                return self._finish(self._perturb(copy.deepcopy(val)), task, depth)
             elif what == 'edit':
                 op = self._edit_list(sim, task, val)
                 if op is not None:
@@ -332,10 +377,31 @@ class GenSource(object):
                     rep['args'] = [{'h': op['id'] * self.cfg['hstride'] + self.cfg['rslots'] + x['slot']} if isinstance(x, dict) and 'mk' in x
                                    else x for x in rep['args']]
                     q.append(('edit', op['id']))
-                elif rng.random() < 0.75:
-                    q.append(('mutate', op['id']))
-                if rng.random() < 0.35:
+                else:
+                    r2 = rng.random()
+                    if r2 < 0.4:
+                        q.append(('mutate', op['id']))
+                    elif r2 < 0.75:
+                        # the caller re-targets one of the Angle/Epoch objects it passed, then calls again with
+                        # the SAME objects (inline objects are referred to by their handle)
+                        hs, rs = self.cfg['hstride'], self.cfg['rslots']
+
+                        def ref(x):
+                            if isinstance(x, dict) and 'new' in x:
+                                return {'h': op['id'] * hs + rs + x['slot']}
+                            return x
+                        rep['recv'] = ref(rep['recv'])
+                        rep['args'] = [ref(x) for x in rep['args']]
+                        rep['kwargs'] = dict((k, ref(v)) for k, v in rep['kwargs'].items())
+                        hids = [x['h'] for x in [rep['recv']] + rep['args'] + list(rep['kwargs'].values())
+                                if isinstance(x, dict) and 'h' in x]
+                        if hids:
+                            q.append(('mutate_arg', hids))
+                r3 = rng.random()
+                if r3 < 0.25:
                     q.append(('again', name))      # same callable, freshly generated arguments
+                elif r3 < 0.5:
+                    q.append(('near', rep))        # same callable, neighbouring arguments
                 else:
                     q.append(('repeat', rep))
             elif has_list and e.effect in ('capture', 'mutator_capture') and rng.random() < 0.3:
